@@ -37,6 +37,10 @@ class Budget(BaseException):
     """per-path budget exceeded"""
 
 
+class StopExploration(BaseException):
+    """enough violation candidates were collected in this job: end it (the check fails anyway)"""
+
+
 # ---------------------------------------------------------------------------------------------
 
 def is_int_poly(p):
@@ -526,6 +530,10 @@ def explore(fn, acc=None, root=None, cut_depth=None, max_paths=None, max_decisio
         except Budget:
             acc.inc('budget_paths')
             acc.add('budget', dict(decisions=len(eng.prefix)))
+        except StopExploration:
+            acc.inc('stopped_after_candidates')
+            _CUR[0] = None
+            break
         finally:
             _CUR[0] = None
         st = eng.stats
